@@ -4,7 +4,7 @@ sys.path.insert(0, os.path.dirname(__file__))
 from _common import main
 from C13 import ref_encrypt
 
-BOUND = 'PVV: PIN lengths 4..12 x PAN 13..19 x key index 0..9 (sampled) x 8/16/24-byte keys, plus keys searched so that the second scan supplies 0,1,2,3,4 digits; KCV lengths 4,6 ; 1..5 key components incl. permutations and duplicates; encrypted zone key under 16/24-byte master keys'
+BOUND = 'PVV: PIN lengths 4..12 x PAN 13..19 x key index 0..9 (sampled) x 8/16/24-byte keys, plus keys searched so that the second scan supplies 0,1,2,3,4 digits; KCV lengths 1..8 and 16; key components that cancel or share leading bytes (XOR with leading zero bytes); 1..5 key components incl. permutations and duplicates; encrypted zone key under 16/24-byte master keys'
 
 
 def ref_pvv(pin, key, idx, pan):
@@ -58,7 +58,7 @@ def oracle(inp):
         return None
     if kind == 'kcv':
         kb = bytes.fromhex(inp['key'])
-        for n in (4, 6):
+        for n in (1, 2, 3, 4, 5, 6, 7, 8, 16):
             if K.calculate_kcv(kb, n) != ref_encrypt('TripleDES', kb, b'\x00' * 8).hex()[:n]:
                 return 'kcv: calculate_kcv(%s, %d) is not the leading hex digits of E_k(zeros)' % (inp['key'], n)
         return None
@@ -87,6 +87,16 @@ def cases(tier, rng):
     for m in (1, 2, 3, 4, 5):
         for _ in range(6):
             yield {'kind': 'zmk', 'parts': [hexk(16) for _ in range(m)]}
+    # components whose XOR starts with zero bytes: a component given twice (k,k), shared leading bytes, a zero first half
+    for _ in range(3):
+        k1, k2 = hexk(16), hexk(16)
+        yield {'kind': 'zmk', 'parts': [k1, k1]}
+        yield {'kind': 'zmk', 'parts': [k1, k1[:2] + k2[2:]]}
+        yield {'kind': 'zmk', 'parts': [k1, k1[:6] + k2[6:], hexk(16), hexk(16)[:0] + '00' * 3 + k2[6:]][:3]}
+        yield {'kind': 'zmk', 'parts': [k1, k1[:16] + k2[16:]]}
+        yield {'kind': 'zmk', 'parts': [k1, k2[:31] + k1[31:]]}
+        yield {'kind': 'zmk', 'parts': ['00' * 16]}
+        yield {'kind': 'zmk', 'parts': ['00' * 15 + '01', k1]}
     for n in (8, 16, 24):
         for _ in range(5):
             yield {'kind': 'kcv', 'key': hexk(n)}
